@@ -10,6 +10,10 @@ import (
 	"pgregory.net/rapid"
 
 	ipfslog "berty.tech/go-ipfs-log"
+	"berty.tech/go-ipfs-log/accesscontroller"
+	"berty.tech/go-ipfs-log/entry"
+	idp "berty.tech/go-ipfs-log/identityprovider"
+	"berty.tech/go-ipfs-log/iface"
 
 	"verifharness/ev"
 	"verifharness/sim"
@@ -32,6 +36,8 @@ func genC17(t *rapid.T) c17Prog {
 			ops = append(ops, sim.Op{Kind: "publish", A: rapid.IntRange(0, w.Replicas-1).Draw(t, "pubrep")})
 		case 2:
 			ops = append(ops, sim.Op{Kind: "failnext"})
+		case 3:
+			ops = append(ops, sim.Op{Kind: "twindeny", B: rapid.IntRange(0, 1<<10).Draw(t, "twin")})
 		}
 		ops = append(ops, op)
 	}
@@ -61,9 +67,39 @@ func runC17(tb ev.TB, p c17Prog) ev.Result {
 	mergeAppend, pubThenAppend := false, false
 	published := map[int]bool{}
 	nfail := 0
+	var committed []committedAppend
+	twins, exactTwins := 0, 0
 	for i, op := range p.World.Ops {
 		n := len(w.Reps)
 		switch op.Kind {
+		case "twindeny":
+			// a second replica of the same writer that holds exactly the history one committed entry was appended
+			// on asks to append the same payload with the same options, and its access controller refuses: the
+			// refused entry is (when the heads order is reproducible) the very block the first replica committed
+			if len(committed) == 0 {
+				continue
+			}
+			ca := committed[op.B%len(committed)]
+			om := entry.NewOrderedMapFromEntries(ca.pre)
+			deny := &denyAll{}
+			tl, err := ipfslog.NewLog(w.Store.API(), ca.identity, &ipfslog.LogOptions{ID: sim.LogID, Entries: om, AccessController: deny, SortFn: world.SortFn(w.Order), IO: w.IO,
+				Clock: entry.NewLamportClock(ca.identity.PublicKey, ca.e.GetClock().GetTime()-1)})
+			if err != nil {
+				tb.Fatalf("op #%d twin log: %v", i, err)
+			}
+			writesBefore := w.Store.NumWrites()
+			_, err = tl.Append(ctx, ca.e.GetPayload(), &ipfslog.AppendOptions{PointerCount: ca.pc, Pin: ca.pin})
+			if err == nil || !deny.asked {
+				tb.Fatalf("op #%d: an append refused by the access controller returned %v (controller asked: %v)", i, err, deny.asked)
+			}
+			if tl.Len() != len(ca.pre) {
+				tb.Fatalf("op #%d: a refused append changed the log", i)
+			}
+			twins++
+			if w.Store.NumWrites() == writesBefore && deny.seen == ca.e.GetHash().String() {
+				exactTwins++
+			}
+			continue
 		case "failnext":
 			if i+1 >= len(p.World.Ops) || (p.World.Ops[i+1].Kind != "append" && p.World.Ops[i+1].Kind != "publish") {
 				continue // only appends and publications write blocks
@@ -145,6 +181,13 @@ func runC17(tb ev.TB, p c17Prog) ev.Result {
 				tb.Fatalf("op #%d append issued %d block writes (%d new blocks), want exactly 1", i, w.Store.NumAdds()-addsBefore, w.Store.NumWrites()-writesBefore)
 			}
 			rets = append(rets, returned{kind: "entry", c: h, prefix: w.Store.NumWrites(), set: r.Model.Clone(), heads: world.SetOf([]string{h.String()}), opIndex: i})
+			var pre []iface.IPFSLogEntry
+			for _, x := range r.Log.GetEntries().Slice() {
+				if !x.GetHash().Equals(h) {
+					pre = append(pre, x)
+				}
+			}
+			committed = append(committed, committedAppend{e: info.Entry, pre: pre, identity: r.Log.Identity, pc: op.PC, pin: op.Pin})
 			in := w.Reg.Get(h.String())
 			if len(in.Next) >= 2 {
 				mergeAppend = true
@@ -155,6 +198,33 @@ func runC17(tb ev.TB, p c17Prog) ev.Result {
 		}
 	}
 	w.Store.SetAddFail(nil)
+
+	// ---- the library never takes a block away that a stored entry or a returned value still needs
+	if rm := w.Store.Removes(); len(rm) > 0 {
+		gone := world.Set{}
+		for _, c := range rm {
+			if _, still := w.Store.Raw(c); !still {
+				gone.Add(c.String())
+			}
+		}
+		for _, c := range w.Store.Writes() {
+			if gone.Has(c.String()) {
+				continue
+			}
+			if in := w.Reg.Get(c.String()); in != nil {
+				for _, l := range append(append([]string{}, in.Next...), in.Refs...) {
+					if gone.Has(l) {
+						tb.Fatalf("store not causally closed: block %s was removed from the store while entry %s still names it", world.Short(l), world.Short(c.String()))
+					}
+				}
+			}
+		}
+		for _, rt := range rets {
+			if gone.Has(rt.c.String()) {
+				tb.Fatalf("%s %s returned by op #%d was removed from the store afterwards", rt.kind, world.Short(rt.c.String()), rt.opIndex)
+			}
+		}
+	}
 
 	// ---- closure at every write prefix: every entry block decodes, and all its next / refs were written before it
 	writes := w.Store.Writes()
@@ -251,6 +321,8 @@ func runC17(tb ev.TB, p c17Prog) ev.Result {
 	ev.Get("C17").AddExtra("write_prefixes_checked", total)
 	ev.Get("C17").AddExtra("loads_from_prefixes", loads)
 	ev.Get("C17").AddExtra("injected_write_failures", nfail)
+	ev.Get("C17").AddExtra("refused_twin_appends", twins)
+	ev.Get("C17").AddExtra("refused_twin_appends_reproducing_a_committed_block", exactTwins)
 	cl := []string{}
 	if mergeAppend {
 		cl = append(cl, "merge-append")
@@ -261,7 +333,32 @@ func runC17(tb ev.TB, p c17Prog) ev.Result {
 	if nfail > 0 {
 		cl = append(cl, "write-failure")
 	}
+	if exactTwins > 0 {
+		cl = append(cl, "refused-append-reproduces-committed-block")
+	}
 	return ev.Result{NonTrivial: mergeAppend && pubThenAppend, Classes: cl}
+}
+
+type committedAppend struct {
+	e        iface.IPFSLogEntry
+	pre      []iface.IPFSLogEntry
+	identity *idp.Identity
+	pc       int
+	pin      bool
+}
+
+// denyAll refuses every append and remembers what it was asked about.
+type denyAll struct {
+	asked bool
+	seen  string
+}
+
+func (d *denyAll) CanAppend(e accesscontroller.LogEntry, _ idp.Interface, _ accesscontroller.CanAppendAdditionalContext) error {
+	d.asked = true
+	if he, ok := e.(iface.IPFSLogEntry); ok {
+		d.seen = he.GetHash().String()
+	}
+	return errors.New("denied by the harness access controller")
 }
 
 type state struct {
